@@ -9,7 +9,7 @@ one() {
   S=$(mktemp -d /tmp/ctv-bb.XXXXXX); mkdir -p $S/home $S/repo; cp /verif/known_findings.json $S/home/
   rsync -a --exclude .git /repo/ $S/repo/
   if ! (cd $S/repo && git init -q . 2>/dev/null; git -C $S/repo apply $pd/patch.diff 2>$S/err); then echo "$id: PATCH DOES NOT APPLY: $(head -1 $S/err)"; rm -rf $S; return; fi
-  out=$(CTVERIF_REPO=$S/repo CTVERIF_HOME=$S/home $BIN checkall 2>&1)
+  out=$(CTVERIF_REPO=$S/repo CTVERIF_HOME=$S/home /verif/tools/throttle $BIN checkall 2>&1)
   if echo "$out" | grep -q "^VIOLATION"; then
     echo "$out" | grep -A1 "^VIOLATION" | grep "rule=" | cut -c1-300 | sed "s/^/$id: FALSE ALARM? /"
   elif [ "$(echo "$out" | grep -c ' quick: ')" != 20 ]; then echo "$id: CHECKER DID NOT COMPLETE ($(echo "$out" | grep -c ' quick: ') of 20 checks): $(echo "$out" | grep -m1 -i 'fatal\|panic\|error' | cut -c1-200)"
